@@ -126,7 +126,7 @@ fn playout(ctx: &mut Ctx, start: &Pos, explicit: Option<&[Mv]>, tape: Option<&mu
         }
         played.push(m);
         ctx.set_case(mk_case(&played));
-        let nb = board.make_move_new(bridge::mv(m));
+        let nb = bridge::advance(&board, bridge::mv(m), played.len() as u64 + (fp(start) >> 9), &board);
         let o = observe(&nb);
         ctx.eval();
         let case = || mk_case(&played);
@@ -177,7 +177,7 @@ fn tree(ctx: &mut Ctx, start: &Pos, depth: usize, node_cap: u64) -> Result<u64, 
         }
         for m in sorted_lib_moves(b) {
             path.push(m);
-            let nb = b.make_move_new(bridge::mv(m));
+            let nb = bridge::advance(b, bridge::mv(m), path.len() as u64 + *nodes, b);
             let no = observe(&nb);
             *nodes += 1;
             ctx.eval();
